@@ -2,6 +2,7 @@ package rules
 
 import (
 	"fmt"
+	"go/types"
 	"strings"
 
 	"golang.org/x/tools/go/ssa"
@@ -230,4 +231,98 @@ func c13HelperList(hc *ssa.Call, um *ssa.Function) bool {
 		}
 	}
 	return true
+}
+
+// c13HelloCallbackAlwaysRuns: the https service takes the JA3 digest inside the tls.Config callback. The vendored
+// stack calls Config.GetCertificate only when len(Config.Certificates) == 0 or the hello names a server, so the digest
+// is taken for every hello only while the service leaves Certificates empty; GetConfigForClient runs unconditionally.
+func c13HelloCallbackAlwaysRuns(c *Ctx) {
+	p := c.P
+	h := p.Method("services", "httpsService", "Handle")
+	if h == nil {
+		return // anchored by https-event-fields
+	}
+	const rule = "hello-callback-always-runs"
+	n := 0
+	for _, mc := range MakeClosures(h) {
+		cf := mc.Fn.(*ssa.Function)
+		if len(cf.Params) != 1 || NamedOf(cf.Params[0].Type()) == nil || NamedOf(cf.Params[0].Type()).Obj().Name() != "ClientHelloInfo" {
+			continue
+		}
+		// where is the closure installed?
+		for _, ref := range *mc.Referrers() {
+			st, ok := ref.(*ssa.Store)
+			if !ok {
+				continue
+			}
+			fa, ok := st.Addr.(*ssa.FieldAddr)
+			if !ok {
+				continue
+			}
+			n++
+			fname := fieldNameOf(fa)
+			key := "callback installed as Config." + fname
+			switch fname {
+			case "GetConfigForClient":
+				c.Ok(rule, key, p.InstrPos(st), "called for every ClientHello")
+			case "GetCertificate":
+				// every store to Certificates of the same Config object must be empty
+				bad := ""
+				if fa.X.Referrers() != nil {
+					for _, r2 := range *fa.X.Referrers() {
+						fa2, ok := r2.(*ssa.FieldAddr)
+						if !ok || fieldNameOf(fa2) != "Certificates" || fa2.Referrers() == nil {
+							continue
+						}
+						for _, r3 := range *fa2.Referrers() {
+							if s2, ok := r3.(*ssa.Store); ok && s2.Addr == ssa.Value(fa2) && !emptySlice(s2.Val) {
+								bad = p.InstrPos(s2) + " `" + RenderN(s2.Val, 3) + "`"
+							}
+						}
+					}
+				}
+				c.Check(bad == "", rule, key, p.InstrPos(st), "Config.Certificates stays empty, so the stack consults GetCertificate for every hello (with or without SNI)", "the same tls.Config is given a Certificates list that is not provably empty ("+bad+"): the vendored stack then calls GetCertificate only for hellos that carry a server name, so a hello without SNI never reaches the callback and its events carry an empty https.ja3-digest")
+			default:
+				c.Violate(rule, key, p.InstrPos(st), "the closure that takes the JA3 digest is installed in a Config field that is not called for every ClientHello")
+			}
+		}
+	}
+	c.Floor(rule, 1, "GetCertificate closure of httpsService.Handle")
+	// premise: the vendored getCertificate still consults the callback under that condition only
+	gc := p.Method("services/ja3/crypto/tls", "Config", "getCertificate")
+	if c.Anchor(gc != nil, rule, "vendored (*tls.Config).getCertificate") {
+		called := false
+		for _, call := range Calls(gc) {
+			if v, ok := call.Common().Value.(*ssa.UnOp); ok {
+				if fa, ok := v.X.(*ssa.FieldAddr); ok && fieldNameOf(fa) == "GetCertificate" {
+					called = true
+				}
+			}
+		}
+		c.Check(called, rule, "vendored getCertificate calls Config.GetCertificate", p.Pos(gc.Pos()), "", "the vendored stack no longer calls the GetCertificate callback")
+	}
+}
+
+// emptySlice: the value is a nil slice or a slice of provably zero length.
+func emptySlice(v ssa.Value) bool {
+	switch x := v.(type) {
+	case *ssa.Const:
+		return x.IsNil()
+	case *ssa.Slice:
+		if pt, ok := x.X.Type().Underlying().(*types.Pointer); ok {
+			if at, ok := pt.Elem().Underlying().(*types.Array); ok && at.Len() == 0 {
+				return true
+			}
+		}
+		if x.High != nil {
+			if k, ok := ConstInt(x.High); ok && k == 0 {
+				return true
+			}
+		}
+	case *ssa.MakeSlice:
+		if k, ok := ConstInt(x.Len); ok && k == 0 {
+			return true
+		}
+	}
+	return false
 }
